@@ -846,12 +846,12 @@ Proof.
     apply read_group_len2 in Hg. apply IH; lia.
 Qed.
 
-Lemma scan_sums_quiet : forall l pre post fuel s lft op fill em,
+Lemma scan_sums_quiet : forall l pre post fuel s lft op fill neg em,
   e = pre ++ flat l ++ post -> cquiet (fun c => (c =? 45) || (c =? 43))%N l -> length e - length pre < fuel ->
-  exists fill', scans fuel (length pre) s lft op fill false em
-              = scans fuel (length pre + length (flat l)) s lft op fill' false em.
+  exists fill', scans fuel (length pre) s lft op fill neg em
+              = scans fuel (length pre + length (flat l)) s lft op fill' neg em.
 Proof.
-  induction l as [|x l IH]; intros pre post fuel s lft op fill em He Hq Hf.
+  induction l as [|x l IH]; intros pre post fuel s lft op fill neg em He Hq Hf.
   - exists fill. cbn [flat length]. f_equal. lia.
   - apply Forall_cons_iff in Hq. destruct Hq as [Hx Hq']. destruct x as [c|g].
     + destruct Hx as [Ho Hc]. cbn [flat item_bytes app] in *.
@@ -859,7 +859,7 @@ Proof.
       assert (Hb : bat e (length pre) = Some c) by (rewrite He, bat_app_r0; reflexivity).
       assert (Hlen : length e = length pre + S (length (flat l) + length post))
         by (rewrite He, !app_length; cbn [length]; rewrite app_length; lia).
-      destruct (IH (pre ++ [c]) post (S fuel) s lft op (if negb fill && negb (isspace c) then true else fill) em)
+      destruct (IH (pre ++ [c]) post (S fuel) s lft op (if negb fill && negb (isspace c) then true else fill) neg em)
         as [fill' Hfill]; auto.
       { rewrite He, <- app_assoc. reflexivity. }
       { rewrite app_length. cbn [length]. lia. }
@@ -880,7 +880,7 @@ Proof.
         by (rewrite He, <- app_assoc; apply sfrom_app).
       assert (Hlen : length e = length pre + (length g + length (flat l) + length post))
         by (rewrite He, !app_length; lia).
-      destruct (IH (pre ++ g) post (S fuel) s lft op true em) as [fill' Hfill]; auto.
+      destruct (IH (pre ++ g) post (S fuel) s lft op true neg em) as [fill' Hfill]; auto.
       { rewrite He, <- !app_assoc. reflexivity. }
       { rewrite app_length. lia. }
       exists fill'. rewrite app_length in Hfill.
@@ -897,13 +897,51 @@ Lemma scan_sums_transparent l :
   scans (S (length e)) 0 0 (VUndef F) 0%N false false [] = next it e.
 Proof.
   intros He Hq Ht Hne.
-  destruct (scan_sums_quiet l [] [] (S (length e)) 0 (VUndef F) 0%N false []) as [fill' H].
+  destruct (scan_sums_quiet l [] [] (S (length e)) 0 (VUndef F) 0%N false false []) as [fill' H].
   { rewrite app_nil_r. exact He. } { exact Hq. } { cbn [length]. lia. }
   cbn [app length Nat.add] in H. rewrite H. clear H.
   rewrite <- He. cbn [scan_sums]. rewrite bat_len_none. cbn [sums_adjust bind]. rewrite sfrom_0.
   cbn [opt_panic bind]. unfold sum_operand. rewrite Ht.
   destruct e as [|c0 r0]; [congruence|].
   unfold rbind. destruct (next it (c0 :: r0)) as [[v em2]| | | |]; cbn [bind]; try reflexivity.
+  replace (0 =? 43)%N with false by reflexivity. replace (0 =? 45)%N with false by reflexivity.
+  unfold ret. cbn [bind app]. rewrite app_nil_r. reflexivity.
+Qed.
+
+(* evalSums on  -digits : the sign is handed back to the number (s--, neg = false) *)
+Lemma scan_sums_neg ds :
+  e = 45%N :: ds -> Forall (fun c => isdigit c = true) ds -> ds <> [] -> trim e = e ->
+  scans (S (length e)) 0 0 (VUndef F) 0%N false false [] = next it e.
+Proof.
+  intros He Hds Hne Ht.
+  assert (Hb0 : bat e 0 = Some 45%N) by (rewrite He; reflexivity).
+  cbn [scan_sums]. rewrite Hb0. replace ((45 =? 45) || (45 =? 43))%N with true by reflexivity.
+  cbn [negb Nat.ltb Nat.leb bind]. replace (45 =? 45)%N with true by reflexivity. cbn [negb].
+  assert (Hq : cquiet (fun c => (c =? 45) || (c =? 43))%N (map IChar ds)).
+  { clear -Hds. induction Hds as [|c r Hc Hr IH]; cbn [map]; constructor; auto.
+    unfold isdigit in Hc. unfold is_opener. split; lia. }
+  assert (Hfl : flat (map IChar ds) = ds).
+  { clear. induction ds as [|c r IH]; cbn [map flat item_bytes app]; congruence. }
+  destruct (scan_sums_quiet (map IChar ds) [45%N] [] (length e) 1 (VUndef F) 0%N false true []) as [fill' H].
+  { rewrite Hfl, app_nil_r. exact He. } { exact Hq. } { rewrite He. cbn [length]. lia. }
+  cbn [length] in H. rewrite H. clear H. rewrite Hfl.
+  assert (Hlen : length e = 1 + length ds) by (rewrite He; reflexivity).
+  destruct ds as [|d0 r0] eqn:Eds; [congruence|]. rewrite <- Eds in *.
+  assert (Hd0 : isdigit d0 = true) by (rewrite Eds in Hds; inversion Hds; assumption).
+  replace (1 + length ds) with (length e) by lia.
+  rewrite (scan_sums_irrel (length e) 1) by lia.
+  cbn [scan_sums]. rewrite bat_len_none.
+  unfold sums_adjust.
+  replace ((0 <? 1) && (1 <? length e)) with true
+    by (symmetry; apply andb_true_iff; split; [reflexivity | apply Nat.ltb_lt; rewrite Hlen, Eds; cbn [length]; lia]).
+  assert (Hp : bat_pred e 1 = Some 45%N) by (rewrite He; reflexivity).
+  assert (Hb1 : bat e 1 = Some d0) by (rewrite He, Eds; reflexivity).
+  rewrite Hp, Hb1. cbn [opt_panic bind]. replace (45 =? 45)%N with true by reflexivity. rewrite Hd0.
+  cbn [andb Nat.sub bind]. rewrite sfrom_0. cbn [opt_panic bind].
+  unfold sum_operand. rewrite Ht.
+  assert (Hnil : e <> []) by (rewrite He; discriminate).
+  clear -Hnil. destruct e as [|c0 r0']; [congruence|].
+  unfold rbind. destruct (next it (c0 :: r0')) as [[v em2]| | | |]; cbn [bind]; try reflexivity.
   replace (0 =? 43)%N with false by reflexivity. replace (0 =? 45)%N with false by reflexivity.
   unfold ret. cbn [bind app]. rewrite app_nil_r. reflexivity.
 Qed.
@@ -966,17 +1004,28 @@ Proof.
       pose proof (Z.div_mod n 10). lia.
 Qed.
 
+Lemma dec_of_Z_spec_k n k : 0 <= n < 10 ^ k -> 1 <= k <= 25 ->
+  exists ds, dec_of_Z n = ds /\ Forall (fun c => isdigit c = true) ds /\ (1 <= length ds)%nat /\
+    Z.of_nat (length ds) <= k /\ all_digits_val ds 0 = Some n.
+Proof.
+  intros Hn Hk. unfold dec_of_Z. replace (n <? 0) with false by lia.
+  destruct (dec_digits_spec 25 n []) as (ds & Hds & Hall & Hlen & Hkk & Hv); [|lia|].
+  { split; [lia|]. eapply Z.lt_le_trans; [apply Hn|]. apply Z.pow_le_mono_r; lia. }
+  exists (dec_digits 25 n []). rewrite Hds, app_nil_r. repeat split; auto.
+  - apply Hkk; lia.
+  - specialize (Hv 0 []). rewrite app_nil_r in Hv. rewrite Hv. cbn [all_digits_val]. f_equal; lia.
+Qed.
+
 Lemma dec_of_Z_spec n : 0 <= n < 1000000000000000 ->
   exists ds, dec_of_Z n = ds /\ Forall (fun c => isdigit c = true) ds /\ (1 <= length ds <= 15)%nat /\
     all_digits_val ds 0 = Some n.
 Proof.
-  intros Hn. unfold dec_of_Z. replace (n <? 0) with false by lia.
-  destruct (dec_digits_spec 25 n []) as (ds & Hds & Hall & Hlen & Hk & Hv); [|lia|].
-  { split; [lia|]. eapply Z.lt_trans; [apply Hn|]. reflexivity. }
-  exists (dec_digits 25 n []). rewrite Hds, app_nil_r. repeat split; auto.
-  - specialize (Hk 15). assert (Z.of_nat (length ds) <= 15) by (apply Hk; [lia|]; apply Hn). lia.
-  - specialize (Hv 0 []). rewrite app_nil_r in Hv. rewrite Hv. cbn [all_digits_val]. f_equal; lia.
+  intros Hn. destruct (dec_of_Z_spec_k n 15) as (ds & H1 & H2 & H3 & H4 & H5); [exact Hn | lia |].
+  exists ds. repeat split; auto. lia.
 Qed.
+
+Lemma dec_of_Z_neg n : n < 0 -> dec_of_Z n = 45%N :: dec_of_Z (- n).
+Proof. intros H. unfold dec_of_Z. replace (n <? 0) with true by lia. replace (- n <? 0) with false by lia. reflexivity. Qed.
 
 Local Close Scope Z_scope.
 
@@ -1091,14 +1140,18 @@ Qed.
 
 Lemma eval_auto_S m it e :
   eval_auto F O obj rec st (S m) it e =
-    if has_step st (S m) then
-      (if S m =? 11 then scan_comma F (eval_auto F O obj rec st m) it e (S (length e)) 0 0 []
-       else if S m =? 10 then scan_terns F O obj rec st (eval_auto F O obj rec st m) it e (S (length e)) 0 0 [] 0%Z
-       else if S m =? 2 then scan_sums F O obj (eval_auto F O obj rec st m) it e (S (length e)) 0 0 (VUndef F) 0%N false false []
-       else scan_level F O obj (S m) (eval_auto F O obj rec st m) it e (S (length e)) 0 0 (VUndef F) 0%N [])
+    if has_step st (S m) then level_scan F O obj rec st (S m) (eval_auto F O obj rec st m) it e
     else eval_auto F O obj rec st m it e.
+Proof. reflexivity. Qed.
+
+Lemma level_scan_cases n next it e :
+  level_scan F O obj rec st n next it e =
+    (if n =? 11 then scan_comma F next it e (S (length e)) 0 0 []
+     else if n =? 10 then scan_terns F O obj rec st next it e (S (length e)) 0 0 [] 0%Z
+     else if n =? 2 then scan_sums F O obj next it e (S (length e)) 0 0 (VUndef F) 0%N false false []
+     else scan_level F O obj n next it e (S (length e)) 0 0 (VUndef F) 0%N []).
 Proof.
-  destruct m as [|[|[|[|[|[|[|[|[|[|[|m]]]]]]]]]]]; reflexivity.
+  destruct n as [|[|[|[|[|[|[|[|[|[|[|[|n]]]]]]]]]]]]; reflexivity.
 Qed.
 
 (* every level is transparent on a tight text made of inert bytes and groups *)
@@ -1108,17 +1161,18 @@ Lemma eval_auto_allq l e c r :
 Proof.
   intros He Hq Hc Ht Hb. induction n as [|m IH]; [reflexivity|].
   rewrite eval_auto_S. destruct (has_step st (S m)); [|exact IH].
+  rewrite level_scan_cases.
   destruct (S m =? 11) eqn:E11.
-  { rewrite (scan_comma_transparent _ _ _ l); auto.
+  { rewrite scan_comma_transparent with (l := l); auto.
     apply allq_cquiet; auto. intros c0 H0. apply (inert_facts c0 H0). }
   destruct (S m =? 10) eqn:E10.
-  { rewrite (scan_terns_transparent O obj rec st _ _ _ l); auto.
+  { rewrite scan_terns_transparent with (l := l); auto.
     apply allq_cquiet; auto. intros c0 H0. apply (inert_facts c0 H0). }
   destruct (S m =? 2) eqn:E2.
-  { rewrite (scan_sums_transparent O obj _ _ _ l); auto; [|rewrite Hc; discriminate].
+  { rewrite scan_sums_transparent with (l := l); auto; [|rewrite Hc; discriminate].
     apply allq_cquiet; auto. intros c0 H0. apply (inert_facts c0 H0). }
-  rewrite (scan_level_transparent O obj _ _ _ _ l); auto; [|apply allq_quiet_from; exact Hq].
-  rewrite bind_pair_id. rewrite (operand_plain _ _ _ _ c r); auto.
+  rewrite scan_level_transparent with (l := l); auto; [|apply allq_quiet_from; exact Hq].
+  rewrite bind_pair_id. rewrite operand_plain with (c := c) (r := r); auto.
 Qed.
 
 (* evalAtom on a parenthesised group *)
@@ -1161,3 +1215,1095 @@ Proof.
 Qed.
 
 End Sem2.
+
+(* ------------------------------------------------------------------ Part 4c: identifiers, numbers, keywords *)
+
+Lemma nonspace_ends_of s : s <> [] -> Forall (fun c => isspace c = false) s -> nonspace_ends s.
+Proof.
+  intros Hne Hall. destruct (exists_last Hne) as (m' & d & Hm). subst s.
+  apply Forall_app in Hall. destruct Hall as [Hm' Hd]. inversion Hd as [|? ? Hd' _]; subst.
+  destruct m' as [|c m].
+  - exists d, [], d. split; [left; reflexivity|]. split; assumption.
+  - exists c, m, d. split; [right; reflexivity|]. inversion Hm'; subst. split; assumption.
+Qed.
+
+Lemma id_rest_all r : forallb id_continue r = true -> id_rest r = r.
+Proof.
+  induction r as [|c r IH]; [reflexivity|]. cbn [forallb id_rest]. intros H.
+  apply andb_true_iff in H. destruct H as [Hc Hr]. rewrite Hc, IH by assumption. reflexivity.
+Qed.
+
+Lemma id_start_range c : id_start c = true ->
+  (c = 36 \/ c = 95 \/ (65 <= c /\ c <= 90) \/ (97 <= c /\ c <= 122))%N.
+Proof.
+  unfold id_start. intros H.
+  apply orb_true_iff in H. destruct H as [H|H].
+  - apply orb_true_iff in H. destruct H as [H|H].
+    + apply orb_true_iff in H. destruct H as [H|H]; apply N.eqb_eq in H; [left | right; left]; exact H.
+    + apply andb_true_iff in H. destruct H as [H1 H2]. apply N.leb_le in H1, H2. right; right; left. split; assumption.
+  - apply andb_true_iff in H. destruct H as [H1 H2]. apply N.leb_le in H1, H2. right; right; right. split; assumption.
+Qed.
+
+Lemma id_start_continue c : id_start c = true -> id_continue c = true.
+Proof. unfold id_continue. intros ->. reflexivity. Qed.
+
+Lemma id_start_tests c : id_start c = true ->
+  ((c =? 48) || (c =? 45) || (c =? 46) || (49 <=? c) && (c <=? 57))%N = false /\
+  ((c =? 34) || (c =? 39))%N = false /\ ((c =? 40) || (c =? 123) || (c =? 91))%N = false /\ (c =? 33)%N = false.
+Proof.
+  intros H. apply id_start_range in H.
+  assert (E : forall k, In k [48; 45; 46; 34; 39; 40; 123; 91; 33]%N -> (c =? k)%N = false).
+  { intros k Hk. apply N.eqb_neq. cbn [In] in Hk. repeat (destruct Hk as [<-|Hk]; [lia|]). contradiction. }
+  rewrite (E 48%N), (E 45%N), (E 46%N), (E 34%N), (E 39%N), (E 40%N), (E 123%N), (E 91%N), (E 33%N) by (cbn; tauto).
+  cbn [orb]. repeat split.
+  destruct (N.leb_spec 49 c); [|reflexivity]. destruct (N.leb_spec c 57); [lia | reflexivity].
+Qed.
+
+Section Sem3.
+Context {F : Type} (O : oracle F) (obj : eobj F).
+Variable rec : N -> bool -> bytes -> R F.
+Variable st : N.
+Notation V := (evalue F).
+
+Lemma wf_name_parts nm : wf_name nm = true ->
+  exists c r, nm = c :: r /\ id_start c = true /\ forallb id_continue r = true /\
+              existsb (bytes_eqb nm) keywords = false.
+Proof.
+  unfold wf_name. destruct nm as [|c r]; [discriminate|]. intros H.
+  apply andb_true_iff in H. destruct H as [H Hk]. apply andb_true_iff in H. destruct H as [Hc Hr].
+  exists c, r. repeat split; auto. apply negb_true_iff. exact Hk.
+Qed.
+
+Lemma wf_name_allq nm : wf_name nm = true ->
+  allq (map IChar nm) /\ flat (map IChar nm) = nm /\ trim nm = nm.
+Proof.
+  intros H. destruct (wf_name_parts nm H) as (c & r & -> & Hc & Hr & _).
+  assert (Hall : Forall (fun x => id_continue x = true) (c :: r)).
+  { constructor; [apply id_start_continue; exact Hc |].
+    apply Forall_forall. intros x Hx. apply (proj1 (forallb_forall _ _) Hr x Hx). }
+  assert (Hin : Forall (fun x => inert x = true) (c :: r)).
+  { eapply Forall_impl; [|exact Hall]. intros a Ha. apply (id_continue_inert a Ha). }
+  destruct (allq_chars (c :: r) Hin) as [H1 H2]. repeat split; auto.
+  apply trim_tight. apply nonspace_ends_of; [congruence|].
+  eapply Forall_impl; [|exact Hall]. intros a Ha. apply (id_continue_inert a Ha).
+Qed.
+
+(* evalAtom on an identifier that is not a keyword *)
+Lemma eval_atom_ident it nm : wf_name nm = true ->
+  eval_atom F O obj rec st it nm = lift F (get_ref_value F O obj false (VUndef F) nm false).
+Proof.
+  intros H. destruct (wf_name_allq nm H) as (_ & _ & Ht).
+  destruct (wf_name_parts nm H) as (c & r & Hnm & Hc & Hr & Hk).
+  unfold eval_atom. rewrite Ht. rewrite Hnm at 1.
+  destruct (id_start_tests c Hc) as (T1 & T2 & T3 & _). rewrite T1, T2, T3.
+  assert (Hri : read_ident nm = Some nm).
+  { rewrite Hnm. cbn [read_ident]. rewrite Hc, id_rest_all by assumption. reflexivity. }
+  rewrite Hri.
+  unfold keywords in Hk. cbn [existsb] in Hk.
+  repeat (apply orb_false_elim in Hk; let H2 := fresh "K" in destruct Hk as [H2 Hk]).
+  rewrite K, K0, K1, K2, K3, K4, K5, K6, K7, K8, K9, K10, K11. cbn [orb].
+  rewrite sfrom_all. unfold lift.
+  destruct (get_ref_value F O obj false (VUndef F) nm false) as [v| | | |]; cbn [bind opt_panic]; reflexivity.
+Qed.
+
+Lemma forall_bat (P : N -> Prop) (l : bytes) i c : Forall P l -> bat l i = Some c -> P c.
+Proof. intros H Hb. unfold bat in Hb. apply nth_error_In in Hb. rewrite Forall_forall in H. auto. Qed.
+
+(* evalAtom on the decimal spelling of a small non-negative integer *)
+Lemma eval_atom_num it n : (0 <= n < 1000000000000000)%Z ->
+  eval_atom F O obj rec st it (dec_of_Z n) = ret F (VFloat F (f_of_int F O n)).
+Proof.
+  intros Hn. destruct (dec_of_Z_spec n Hn) as (ds & -> & Hall & Hlen & Hval).
+  destruct ds as [|c r] eqn:Eds; [cbn in Hlen; lia|]. rewrite <- Eds in *.
+  assert (Hc : isdigit c = true) by (rewrite Eds in Hall; inversion Hall; auto).
+  assert (Hns : Forall (fun x => isspace x = false) ds).
+  { eapply Forall_impl; [|exact Hall]. intros a Ha. unfold isdigit in Ha. unfold isspace. lia. }
+  assert (Ht : trim ds = ds) by (apply trim_tight, nonspace_ends_of; [rewrite Eds; congruence | exact Hns]).
+  unfold eval_atom. rewrite Ht. rewrite Eds at 1.
+  replace ((c =? 48) || (c =? 45) || (c =? 46) || (49 <=? c) && (c <=? 57))%N with true
+    by (unfold isdigit in Hc; lia).
+  assert (Hpf : expr_parse_float F O ds = Ok (Some (f_of_int F O n))).
+  { unfold expr_parse_float. replace (15 <? length ds) with false by (symmetry; apply Nat.ltb_ge; lia).
+    rewrite Eds at 1. replace (c =? 45)%N with false by (unfold isdigit in Hc; lia).
+    rewrite Hval. rewrite Eds. reflexivity. }
+  assert (Hgeneric : atom_number_generic F O ds = Ok (VFloat F (f_of_int F O n))).
+  { unfold atom_number_generic.
+    destruct ((3 <? length ds) && has_suffix_64 ds) eqn:E.
+    - apply andb_true_iff in E. destruct E as [E _]. apply Nat.ltb_lt in E.
+      destruct (bat ds (length ds - 3)) as [k|] eqn:Hk.
+      + cbn [opt_panic bind]. pose proof (forall_bat _ _ _ _ Hall Hk) as Hd. cbv beta in Hd.
+        unfold isdigit in Hd. replace (k =? 117)%N with false by lia. replace (k =? 105)%N with false by lia.
+        cbn [bind]. rewrite Hpf. reflexivity.
+      + unfold bat in Hk. apply nth_error_None in Hk. lia.
+    - cbn [bind]. rewrite Hpf. reflexivity. }
+  assert (Hgen : atom_number F O ds = Ok (VFloat F (f_of_int F O n))).
+  { unfold atom_number. assert (Hb0 : bat ds 0 = Some c) by (rewrite Eds; reflexivity).
+    rewrite Hb0. cbn [opt_panic bind].
+    destruct (c =? 48)%N; [|exact Hgeneric].
+    destruct (bat ds 1) as [c1|] eqn:Hc1; [|exact Hgeneric].
+    pose proof (forall_bat _ _ _ _ Hall Hc1) as Hd. cbv beta in Hd. unfold isdigit in Hd.
+    replace ((c1 =? 120) || (c1 =? 88))%N with false by lia. exact Hgeneric. }
+  rewrite Hgen. reflexivity.
+Qed.
+
+(* evalAtom on  -digits  (at most 14 digits): parseFloat's  n * -1 *)
+Lemma eval_atom_negnum it m ds :
+  Forall (fun c => isdigit c = true) ds -> 1 <= length ds <= 14 -> all_digits_val ds 0%Z = Some m ->
+  eval_atom F O obj rec st it (45%N :: ds) = ret F (VFloat F (f_mul F O (f_of_int F O m) (f_of_int F O (-1)%Z))).
+Proof.
+  intros Hall Hlen Hval. set (e := 45%N :: ds).
+  assert (Hns : Forall (fun x => isspace x = false) e).
+  { constructor; [reflexivity|]. eapply Forall_impl; [|exact Hall]. intros a Ha. unfold isdigit in Ha. unfold isspace. lia. }
+  assert (Ht : trim e = e) by (apply trim_tight, nonspace_ends_of; [discriminate | exact Hns]).
+  unfold eval_atom. rewrite Ht. unfold e at 1.
+  replace ((45 =? 48) || (45 =? 45) || (45 =? 46) || (49 <=? 45) && (45 <=? 57))%N with true by reflexivity.
+  assert (Hpf : expr_parse_float F O e = Ok (Some (f_mul F O (f_of_int F O m) (f_of_int F O (-1)%Z)))).
+  { unfold expr_parse_float. replace (15 <? length e) with false by (symmetry; apply Nat.ltb_ge; cbn [e length]; lia).
+    unfold e at 1. replace (45 =? 45)%N with true by reflexivity.
+    destruct ds as [|d0 r0]; [cbn in Hlen; lia|]. rewrite Hval. reflexivity. }
+  assert (Hgeneric : atom_number_generic F O e = Ok (VFloat F (f_mul F O (f_of_int F O m) (f_of_int F O (-1)%Z)))).
+  { unfold atom_number_generic.
+    destruct ((3 <? length e) && has_suffix_64 e) eqn:E.
+    - apply andb_true_iff in E. destruct E as [E _]. apply Nat.ltb_lt in E.
+      destruct (bat e (length e - 3)) as [k|] eqn:Hk.
+      + cbn [opt_panic bind].
+        assert (Hd : isdigit k = true).
+        { unfold e in Hk, E. cbn [length] in Hk, E. replace (S (length ds) - 3) with (S (length ds - 3)) in Hk by lia.
+          cbn [bat nth_error] in Hk. apply (forall_bat _ _ _ _ Hall Hk). }
+        unfold isdigit in Hd. replace (k =? 117)%N with false by lia. replace (k =? 105)%N with false by lia.
+        cbn [bind]. rewrite Hpf. reflexivity.
+      + unfold bat in Hk. apply nth_error_None in Hk. lia.
+    - cbn [bind]. rewrite Hpf. reflexivity. }
+  unfold atom_number. unfold e at 1. cbn [bat nth_error opt_panic bind].
+  replace (45 =? 48)%N with false by reflexivity. rewrite Hgeneric. reflexivity.
+Qed.
+
+Lemma eval_atom_true it : eval_atom F O obj rec st it s_true = ret F (VBool F true).
+Proof. reflexivity. Qed.
+Lemma eval_atom_false it : eval_atom F O obj rec st it s_false = ret F (VBool F false).
+Proof. reflexivity. Qed.
+Lemma eval_atom_null it : eval_atom F O obj rec st it s_null = ret F (VNull F).
+Proof. reflexivity. Qed.
+
+End Sem3.
+
+(* ------------------------------------------------------------------ Part 5: the shapes the printer produces *)
+
+Lemma id_continue_plain c : id_continue c = true -> plain_sq c = true.
+Proof.
+  intros H. apply id_continue_range in H. unfold plain_sq.
+  assert (E : forall k, In k [34; 39; 123; 91; 40; 125; 93; 41]%N -> (c =? k)%N = false).
+  { intros k Hk. apply N.eqb_neq. cbn [In] in Hk. repeat (destruct Hk as [<-|Hk]; [lia|]). contradiction. }
+  rewrite (E 34%N), (E 39%N), (E 123%N), (E 91%N), (E 40%N), (E 125%N), (E 93%N), (E 41%N) by (cbn; tauto).
+  reflexivity.
+Qed.
+
+Lemma isdigit_id_continue c : isdigit c = true -> id_continue c = true.
+Proof. unfold id_continue. intros ->. apply orb_true_r. Qed.
+
+Lemma bal_plain_run s r : Forall (fun c => plain_sq c = true) s -> bal r -> bal (s ++ r).
+Proof. induction 1; cbn [app]; auto. intros. apply bal_plain; auto. Qed.
+
+(* what the levels see of an atom: a string literal and a parenthesised negative number are one
+   group, everything else is a run of identifier bytes *)
+Definition group_atom (a : atom) : bool :=
+  match a with AStr _ => true | ANum n => (n <? 0)%Z | _ => false end.
+
+Definition atom_items (a : atom) : list item :=
+  if group_atom a then [IGroup (print_atom a)] else map IChar (print_atom a).
+
+Lemma forallb_Forall {A} (p : A -> bool) l : forallb p l = true -> Forall (fun x => p x = true) l.
+Proof. intros H. apply Forall_forall. intros x Hx. apply (proj1 (forallb_forall _ _) H x Hx). Qed.
+
+Lemma atom_chars_idc a : wf_atom a = true -> group_atom a = false ->
+  Forall (fun c => id_continue c = true) (print_atom a) /\ print_atom a <> [].
+Proof.
+  destruct a as [nm|n|s|b|]; cbn [wf_atom print_atom group_atom]; intros H Hg; try discriminate.
+  - destruct nm as [|c r]; [discriminate|]. unfold wf_name in H.
+    apply andb_true_iff in H. destruct H as [H _]. apply andb_true_iff in H. destruct H as [Hc Hr].
+    split; [|congruence]. constructor; [apply id_start_continue; exact Hc | apply forallb_Forall; exact Hr].
+  - rewrite Hg. apply andb_true_iff in H. destruct H as [H1 H2].
+    destruct (dec_of_Z_spec n) as (ds & -> & Hall & Hlen & _); [lia|].
+    split; [|destruct ds; [cbn in Hlen; lia | congruence]].
+    eapply Forall_impl; [|exact Hall]. intros c Hc. apply isdigit_id_continue. exact Hc.
+  - destruct b; (split; [repeat constructor | discriminate]).
+  - split; [repeat constructor | discriminate].
+Qed.
+
+Record tight_text (s : bytes) : Prop := {
+  tt_trim : trim s = s;
+  tt_head : exists c r, s = c :: r /\ (c =? 33)%N = false /\ isspace c = false;
+  tt_last : exists m d, s = m ++ [d] /\ isspace d = false
+}.
+
+Lemma idc_not_bang c : id_continue c = true -> (c =? 33)%N = false.
+Proof. intros H. apply id_continue_range in H. apply N.eqb_neq. lia. Qed.
+
+Lemma idc_text_shape s : s <> [] -> Forall (fun c => id_continue c = true) s ->
+  allq (map IChar s) /\ flat (map IChar s) = s /\ tight_text s /\ bal s.
+Proof.
+  intros Hne Hall.
+  assert (Hin : Forall (fun x => inert x = true) s)
+    by (eapply Forall_impl; [|exact Hall]; intros c0 Hc0; apply (id_continue_inert c0 Hc0)).
+  assert (Hns : Forall (fun x => isspace x = false) s)
+    by (eapply Forall_impl; [|exact Hall]; intros c0 Hc0; apply (id_continue_inert c0 Hc0)).
+  destruct (allq_chars s Hin) as [H1 H2]. split; [exact H1|]. split; [exact H2|]. split.
+  - constructor.
+    + apply trim_tight, nonspace_ends_of; assumption.
+    + destruct s as [|c r]; [congruence|]. exists c, r. inversion Hall; inversion Hns; subst.
+      split; [reflexivity|]. split; [apply idc_not_bang; assumption | assumption].
+    + destruct (exists_last Hne) as (m & d & ->). exists m, d. split; [reflexivity|].
+      apply Forall_app in Hns. destruct Hns as [_ Hd]. inversion Hd; assumption.
+  - rewrite <- (app_nil_r s). apply bal_plain_run; [|constructor].
+    eapply Forall_impl; [|exact Hall]. intros c0 Hc0. apply id_continue_plain. exact Hc0.
+Qed.
+
+Lemma str_lit_shape s : Forall safe s ->
+  allq [IGroup (34%N :: s ++ [34%N])] /\ flat [IGroup (34%N :: s ++ [34%N])] = 34%N :: s ++ [34%N] /\
+  tight_text (34%N :: s ++ [34%N]) /\ bal (34%N :: s ++ [34%N]).
+Proof.
+  intros Hs. split; [constructor; [apply good_group_str; exact Hs | constructor]|].
+  split; [cbn [flat item_bytes]; apply app_nil_r|]. split.
+  - constructor.
+    + apply trim_tight. exists 34%N, s, 34%N. repeat split; auto.
+    + exists 34%N, (s ++ [34%N]). repeat split; auto.
+    + exists (34%N :: s), 34%N. repeat split; auto.
+  - apply (bal_str s []); [exact Hs | constructor].
+Qed.
+
+(* the text of a negative literal: - and at most 14 digits *)
+Lemma neg_text_spec n : (-100000000000000 < n)%Z -> (n < 0)%Z ->
+  exists ds, dec_of_Z n = 45%N :: ds /\ Forall (fun c => isdigit c = true) ds /\ 1 <= length ds <= 14 /\
+    all_digits_val ds 0%Z = Some (- n)%Z.
+Proof.
+  intros H1 H2. rewrite dec_of_Z_neg by exact H2.
+  destruct (dec_of_Z_spec_k (- n) 14) as (ds & Hds & Hall & Hlen & Hk & Hv); [split; [lia|]; change (10 ^ 14)%Z with 100000000000000%Z; lia | lia |].
+  exists ds. rewrite Hds. repeat split; auto; lia.
+Qed.
+
+Lemma neg_text_bal n : (-100000000000000 < n)%Z -> (n < 0)%Z -> bal (dec_of_Z n).
+Proof.
+  intros H1 H2. destruct (neg_text_spec n H1 H2) as (ds & -> & Hall & _).
+  apply bal_plain; [reflexivity|]. rewrite <- (app_nil_r ds). apply bal_plain_run; [|constructor].
+  eapply Forall_impl; [|exact Hall]. intros c Hc. apply id_continue_plain, isdigit_id_continue. exact Hc.
+Qed.
+
+Lemma paren_shape x : bal x ->
+  allq [IGroup (40%N :: x ++ [41%N])] /\ flat [IGroup (40%N :: x ++ [41%N])] = 40%N :: x ++ [41%N] /\
+  tight_text (40%N :: x ++ [41%N]) /\ bal (40%N :: x ++ [41%N]).
+Proof.
+  intros Hx. split; [constructor; [apply good_group_paren; exact Hx | constructor]|].
+  split; [cbn [flat item_bytes]; apply app_nil_r|]. split.
+  - constructor.
+    + apply trim_tight. exists 40%N, x, 41%N. repeat split; auto.
+    + exists 40%N, (x ++ [41%N]). repeat split; auto.
+    + exists (40%N :: x), 41%N. repeat split; auto.
+  - apply (bal_paren x []); [exact Hx | constructor].
+Qed.
+
+Lemma atom_shape a : wf_atom a = true ->
+  allq (atom_items a) /\ flat (atom_items a) = print_atom a /\ tight_text (print_atom a) /\ bal (print_atom a).
+Proof.
+  intros H. unfold atom_items. destruct (group_atom a) eqn:Hg.
+  - destruct a as [nm|n|s|b|]; cbn [group_atom] in Hg; try discriminate.
+    + cbn [print_atom wf_atom] in *. rewrite Hg. apply paren_shape.
+      apply andb_true_iff in H. destruct H as [H1 H2]. apply neg_text_bal; lia.
+    + cbn [print_atom wf_atom] in *. apply str_lit_shape. apply forallb_Forall. exact H.
+  - destruct (atom_chars_idc a H Hg) as [Hall Hne]. apply idc_text_shape; assumption.
+Qed.
+
+Section Main.
+Context {F : Type} (O : oracle F) (obj : eobj F).
+Variable rec : N -> bool -> bytes -> R F.
+Variable st : N.
+Notation V := (evalue F).
+Notation EA := (eval_auto F O obj rec st).
+
+Lemma operand_trim_eq n next it (lft : V) op e1 e2 :
+  trim e1 = trim e2 -> operand F O obj n next it lft op e1 = operand F O obj n next it lft op e2.
+Proof. intros H. unfold operand. rewrite H. reflexivity. Qed.
+
+(* the operand functions on a tight text that does not start with '!' *)
+Lemma operand_nobang n next it (lft : V) op s :
+  tight_text s ->
+  operand F O obj n next it lft op s =
+    rbind F (next it s) (fun rgt => lift F (apply_op F O obj n op lft rgt)).
+Proof.
+  intros [Ht (c & r & Hs & Hb & _) _]. unfold operand. rewrite Ht.
+  destruct (n =? 4).
+  - rewrite Hs. cbn [strip_bangs length]. rewrite Hb. cbn [negb bind]. reflexivity.
+  - rewrite Hs. reflexivity.
+Qed.
+
+Lemma rbind_lift (r : res V) (f : V -> res V) :
+  rbind F (lift F r) (fun x => lift F (f x)) = lift F (do x <- r; f x).
+Proof.
+  unfold rbind, lift, ret. destruct r as [x| | | |]; cbn [bind]; try reflexivity.
+  destruct (f x) as [y| | | |]; cbn [bind app]; reflexivity.
+Qed.
+
+Lemma lift_pair_bind (ra : res V) (g : V -> R F) (rb : V -> res V) :
+  (forall x, g x = lift F (rb x)) ->
+  (do ve <- lift F ra; let '(a, em1) := ve in do we <- g a; let '(b, em2) := we in Ok (b, em1 ++ em2))
+  = lift F (do x <- ra; rb x).
+Proof.
+  intros Hg. unfold lift, ret. destruct ra as [x| | | |]; cbn [bind]; try reflexivity.
+  rewrite Hg. unfold lift, ret. destruct (rb x) as [y| | | |]; cbn [bind app]; reflexivity.
+Qed.
+
+(* level n does nothing on the top-level items l of e *)
+Definition level_quiet (n : nat) (e : bytes) (l : list item) : Prop :=
+  if n =? 11 then cquiet (fun c => (c =? 44)%N) l
+  else if n =? 10 then cquiet (fun c => ((c =? 63) || (c =? 58))%N) l
+  else if n =? 2 then cquiet (fun c => ((c =? 45) || (c =? 43))%N) l
+  else quiet_from n e 0 l.
+
+Lemma eval_auto_down_k l e c r lo :
+  e = flat l -> e = c :: r -> trim e = e ->
+  forall k,
+  (forall n, lo < n -> n <= lo + k -> (n =? 4) && (c =? 33)%N = false) ->
+  (forall n, lo < n -> n <= lo + k -> level_quiet n e l) ->
+  EA (lo + k) false e = EA lo false e.
+Proof.
+  intros He Hc Ht. induction k as [|k IH]; intros Hbang Hq; [rewrite Nat.add_0_r; reflexivity|].
+  assert (IH' : EA (lo + k) false e = EA lo false e).
+  { apply IH; intros n H1 H2; [apply Hbang | apply Hq]; lia. }
+  replace (lo + S k) with (S (lo + k)) by lia.
+  rewrite eval_auto_S. destruct (has_step st (S (lo + k))); [|exact IH'].
+  rewrite level_scan_cases.
+  pose proof (Hq (S (lo + k)) ltac:(lia) ltac:(lia)) as Hl. unfold level_quiet in Hl.
+  destruct (S (lo + k) =? 11).
+  { rewrite scan_comma_transparent with (l := l); auto. }
+  destruct (S (lo + k) =? 10).
+  { rewrite scan_terns_transparent with (l := l); auto. }
+  destruct (S (lo + k) =? 2).
+  { rewrite scan_sums_transparent with (l := l); auto. rewrite Hc. discriminate. }
+  rewrite scan_level_transparent with (l := l); auto.
+  rewrite bind_pair_id.
+  pose proof (Hbang (S (lo + k)) ltac:(lia) ltac:(lia)) as Hb.
+  unfold operand. rewrite Ht.
+  destruct (S (lo + k) =? 4).
+  - cbn [andb] in Hb. rewrite Hc. cbn [strip_bangs length]. rewrite Hb. cbn [negb bind].
+    rewrite <- Hc. unfold rbind. rewrite IH'.
+    destruct (EA lo false e) as [[v em]| | | |]; cbn [bind]; try reflexivity.
+    rewrite apply_op_zero. unfold lift, ret. cbn [bind]. rewrite app_nil_r. reflexivity.
+  - rewrite Hc. rewrite <- Hc. unfold rbind. rewrite IH'.
+    destruct (EA lo false e) as [[v em]| | | |]; cbn [bind]; try reflexivity.
+    rewrite apply_op_zero. unfold lift, ret. cbn [bind]. rewrite app_nil_r. reflexivity.
+Qed.
+
+Lemma eval_auto_down l e c r lo :
+  e = flat l -> e = c :: r -> trim e = e ->
+  (forall n, lo < n -> (n =? 4) && (c =? 33)%N = false) ->
+  (forall n, lo < n -> level_quiet n e l) ->
+  forall k, EA (lo + k) false e = EA lo false e.
+Proof.
+  intros He Hc Ht Hbang Hq k. apply (eval_auto_down_k l e c r lo He Hc Ht k); intros n H1 _; auto.
+Qed.
+
+Lemma allq_level_quiet l e n : allq l -> level_quiet n e l.
+Proof.
+  intros Hq. unfold level_quiet.
+  destruct (n =? 11); [apply allq_cquiet; auto; intros c0 H0; apply (inert_facts c0 H0)|].
+  destruct (n =? 10); [apply allq_cquiet; auto; intros c0 H0; apply (inert_facts c0 H0)|].
+  destruct (n =? 2); [apply allq_cquiet; auto; intros c0 H0; apply (inert_facts c0 H0)|].
+  apply allq_quiet_from. exact Hq.
+Qed.
+
+(* a text whose top level is inert bytes and groups goes straight to evalAtom *)
+Lemma eval_auto_allq' l e :
+  e = flat l -> allq l -> tight_text e -> forall n, EA n false e = eval_atom F O obj rec st false e.
+Proof.
+  intros He Hq [Ht (c & r & Hc & Hb & _) _] n.
+  replace n with (0 + n) by lia. rewrite eval_auto_down with (l := l) (c := c) (r := r); auto.
+  - intros m _. rewrite Hb. apply andb_false_r.
+  - intros m _. apply allq_level_quiet. exact Hq.
+Qed.
+
+(* evalExpr on the text of a negative literal (what the callback has to deliver for (-5)) *)
+Definition neg_ok : Prop :=
+  forall n, (-100000000000000 < n)%Z -> (n < 0)%Z ->
+    rec st false (dec_of_Z n) = ret F (VFloat F (f_mul F O (f_of_int F O (- n)%Z) (f_of_int F O (-1)%Z))).
+
+(* atoms *)
+Lemma eval_auto_atom a : wf_atom a = true -> neg_ok ->
+  forall n, EA n false (print_atom a) = lift F (den_atom F O obj a).
+Proof.
+  intros H Hneg n. destruct (atom_shape a H) as (Hq & Hf & Ht & _).
+  rewrite eval_auto_allq' with (l := atom_items a); auto.
+  destruct a as [nm|z|s|b|]; cbn [print_atom den_atom wf_atom] in *.
+  - apply eval_atom_ident. exact H.
+  - apply andb_true_iff in H. destruct H as [H1 H2].
+    destruct (z <? 0)%Z eqn:Ez.
+    + rewrite eval_atom_paren by (apply neg_text_bal; lia). rewrite Hneg by lia. reflexivity.
+    + apply eval_atom_num. lia.
+  - apply eval_atom_str. apply forallb_Forall. exact H.
+  - destruct b; reflexivity.
+  - reflexivity.
+Qed.
+
+(* a parenthesised group *)
+Lemma eval_auto_paren x : bal x ->
+  forall n, EA n false (40%N :: x ++ [41%N]) = rec st false x.
+Proof.
+  intros Hx n.
+  rewrite eval_auto_allq' with (l := [IGroup (40%N :: x ++ [41%N])]).
+  - apply eval_atom_paren. exact Hx.
+  - cbn [flat item_bytes]. rewrite app_nil_r. reflexivity.
+  - constructor; [apply good_group_paren; exact Hx | constructor].
+  - constructor.
+    + apply trim_tight. exists 40%N, x, 41%N. repeat split; auto.
+    + exists 40%N, (x ++ [41%N]). repeat split; auto.
+    + exists (40%N :: x), 41%N. repeat split; auto.
+Qed.
+
+End Main.
+
+(* ------------------------------------------------------------------ Part 5b: operators at top level *)
+
+(* ctx.steps contains the step bits of every byte of s *)
+Definition covers (st : N) (s : bytes) : Prop :=
+  forall c, In c s -> N.land st (op_steps c) = op_steps c.
+
+Lemma covers_app st a b : covers st (a ++ b) <-> covers st a /\ covers st b.
+Proof.
+  unfold covers. split.
+  - intros H. split; intros c Hc; apply H; apply in_or_app; auto.
+  - intros [Ha Hb] c Hc. apply in_app_or in Hc. destruct Hc; auto.
+Qed.
+
+Lemma covers_cons st c s : covers st (c :: s) <-> N.land st (op_steps c) = op_steps c /\ covers st s.
+Proof.
+  unfold covers. split.
+  - intros H. split; [apply H; left; reflexivity | intros x Hx; apply H; right; exact Hx].
+  - intros [Hc Hs] x [<-|Hx]; auto.
+Qed.
+
+Lemma land_sub st a b : N.land st a = a -> N.land a b = b -> N.land st b = b.
+Proof. intros Ha Hb. rewrite <- Hb at 1. rewrite N.land_assoc, Ha. exact Hb. Qed.
+
+Lemma has_step_sub st c n : N.land st (op_steps c) = op_steps c -> N.land (op_steps c) (step_bit n) = step_bit n ->
+  has_step st n = true.
+Proof. intros H1 H2. unfold has_step. apply N.eqb_eq. apply (land_sub st (op_steps c)); assumption. Qed.
+
+Lemma land_lor_keep a b x : N.land a x = x -> N.land (N.lor a b) x = x.
+Proof.
+  intros H. apply N.bits_inj. intros k. rewrite N.land_spec, N.lor_spec.
+  assert (Hk : N.testbit x k = N.testbit a k && N.testbit x k) by (rewrite <- N.land_spec, H; reflexivity).
+  destruct (N.testbit x k).
+  - rewrite andb_true_r in Hk. rewrite <- Hk. reflexivity.
+  - rewrite !andb_false_r. reflexivity.
+Qed.
+
+Lemma land_lor_new a x : N.land (N.lor a x) x = x.
+Proof.
+  apply N.bits_inj. intros k. rewrite N.land_spec, N.lor_spec.
+  destruct (N.testbit a k), (N.testbit x k); reflexivity.
+Qed.
+
+Lemma covers_steps_of s : covers (steps_of s) s.
+Proof.
+  unfold steps_of.
+  assert (G : forall s acc c, (In c s \/ N.land acc (op_steps c) = op_steps c) ->
+              N.land (fold_left (fun a x => N.lor a (op_steps x)) s acc) (op_steps c) = op_steps c).
+  { induction s0 as [|x s0 IH]; intros acc c [Hin|Hacc]; cbn [fold_left].
+    - contradiction.
+    - exact Hacc.
+    - destruct Hin as [<-|Hin]; apply IH; [right; apply land_lor_new | left; exact Hin].
+    - apply IH. right. apply land_lor_keep. exact Hacc. }
+  intros c Hc. apply G. left. exact Hc.
+Qed.
+
+(* recog at a position given by a decomposition of e *)
+Lemma recog3 pre c c1 post :
+  (c = 60 \/ c = 62)%N ->
+  recog 3 (pre ++ c :: c1 :: post) (length pre) c =
+    Ok (if (c1 =? 61)%N then ASplit (c + 32)%N 2 else ASplit c 1).
+Proof.
+  intros Hc. cbn [recog].
+  replace ((c =? 60) || (c =? 62))%N with true by (destruct Hc; subst; reflexivity).
+  replace (length pre <? length (pre ++ c :: c1 :: post) - 1) with true
+    by (symmetry; apply Nat.ltb_lt; rewrite app_length; cbn [length]; lia).
+  replace (S (length pre)) with (length pre + 1) by lia. rewrite bat_app_r. cbn [bat nth_error opt_panic bind].
+  destruct (c1 =? 61)%N; reflexivity.
+Qed.
+
+Lemma recog4_after_lt pre p post :
+  (p = 60 \/ p = 62)%N -> recog 4 ((pre ++ [p]) ++ 61%N :: post) (length (pre ++ [p])) 61%N = Ok ANone.
+Proof.
+  intros Hp. cbn [recog]. replace (61 =? 61)%N with true by reflexivity.
+  replace (0 <? length (pre ++ [p])) with true by (symmetry; apply Nat.ltb_lt; rewrite app_length; cbn; lia).
+  rewrite bat_pred_app_last. cbn [opt_panic bind].
+  replace ((p =? 62) || (p =? 60))%N with true by (destruct Hp; subst; reflexivity). reflexivity.
+Qed.
+
+Lemma recog4_eq pre p c2 post :
+  (p =? 62)%N = false -> (p =? 60)%N = false -> (c2 =? 61)%N = false ->
+  recog 4 ((pre ++ [p]) ++ 61%N :: 61%N :: c2 :: post) (length (pre ++ [p])) 61%N = Ok (ASplit 61%N 2).
+Proof.
+  intros H1 H2 H3. cbn [recog]. replace (61 =? 61)%N with true by reflexivity.
+  replace (0 <? length (pre ++ [p])) with true by (symmetry; apply Nat.ltb_lt; rewrite app_length; cbn; lia).
+  rewrite bat_pred_app_last. cbn [opt_panic bind]. rewrite H1, H2. cbn [orb].
+  replace (length (pre ++ [p]) =? length ((pre ++ [p]) ++ 61%N :: 61%N :: c2 :: post) - 1) with false
+    by (symmetry; apply Nat.eqb_neq; rewrite !app_length; cbn [length]; lia).
+  replace (S (length (pre ++ [p]))) with (length (pre ++ [p]) + 1) by lia. rewrite bat_app_r.
+  cbn [bat nth_error opt_panic bind]. replace (61 =? 61)%N with true by reflexivity.
+  replace (61 =? 126)%N with false by reflexivity. cbn [negb andb].
+  replace (length (pre ++ [p]) + 2 <? length ((pre ++ [p]) ++ 61%N :: 61%N :: c2 :: post)) with true
+    by (symmetry; apply Nat.ltb_lt; rewrite !app_length; cbn [length]; lia).
+  rewrite bat_app_r. cbn [bat nth_error opt_panic bind]. rewrite H3. reflexivity.
+Qed.
+
+Lemma recog4_ne pre c2 post :
+  (c2 =? 61)%N = false ->
+  recog 4 (pre ++ 33%N :: 61%N :: c2 :: post) (length pre) 33%N = Ok (ASplit 33%N 2).
+Proof.
+  intros H3. cbn [recog]. replace (33 =? 61)%N with false by reflexivity. replace (33 =? 33)%N with true by reflexivity.
+  replace (length pre =? length (pre ++ 33%N :: 61%N :: c2 :: post) - 1) with false
+    by (symmetry; apply Nat.eqb_neq; rewrite !app_length; cbn [length]; lia).
+  replace (S (length pre)) with (length pre + 1) by lia. rewrite bat_app_r.
+  cbn [bat nth_error opt_panic bind]. replace (61 =? 61)%N with true by reflexivity. cbn [negb].
+  replace (length pre + 2 <? length (pre ++ 33%N :: 61%N :: c2 :: post)) with true
+    by (symmetry; apply Nat.ltb_lt; rewrite !app_length; cbn [length]; lia).
+  rewrite bat_app_r. cbn [bat nth_error opt_panic bind]. rewrite H3. reflexivity.
+Qed.
+
+Lemma recog4_bang c1 post : (c1 =? 61)%N = false -> recog 4 (33%N :: c1 :: post) 0 33%N = Ok ANone.
+Proof.
+  intros H. cbn [recog length bat nth_error opt_panic bind Nat.eqb Nat.sub].
+  replace (33 =? 61)%N with false by reflexivity. replace (33 =? 33)%N with true by reflexivity.
+  rewrite H. reflexivity.
+Qed.
+
+Lemma recog8 pre post : recog 8 (pre ++ 38%N :: 38%N :: post) (length pre) 38%N = Ok (ASplit 38%N 2).
+Proof.
+  cbn [recog]. replace (38 =? 38)%N with true by reflexivity.
+  replace (S (length pre) =? length (pre ++ 38%N :: 38%N :: post)) with false
+    by (symmetry; apply Nat.eqb_neq; rewrite !app_length; cbn [length]; lia).
+  replace (S (length pre)) with (length pre + 1) by lia. rewrite bat_app_r. reflexivity.
+Qed.
+
+Lemma recog9 pre post : recog 9 (pre ++ 124%N :: 124%N :: post) (length pre) 124%N = Ok (ASplit 124%N 2).
+Proof.
+  cbn [recog]. replace (124 =? 63)%N with false by reflexivity. replace (124 =? 124)%N with true by reflexivity.
+  replace (S (length pre) =? length (pre ++ 124%N :: 124%N :: post)) with false
+    by (symmetry; apply Nat.eqb_neq; rewrite !app_length; cbn [length]; lia).
+  replace (S (length pre)) with (length pre + 1) by lia. rewrite bat_app_r. reflexivity.
+Qed.
+
+Lemma quiet_from_app n e : forall l1 i l2,
+  quiet_from n e i l1 -> quiet_from n e (i + length (flat l1)) l2 -> quiet_from n e i (l1 ++ l2).
+Proof.
+  induction l1 as [|x l1 IH]; intros i l2 H1 H2; cbn [app flat length] in *.
+  - rewrite Nat.add_0_r in H2. exact H2.
+  - inversion H1 as [|? c r Ho Hr Hq|? g r Hg Hq]; subst.
+    + constructor; auto. apply IH; auto. cbn [item_bytes app length] in H2.
+      replace (S i + length (flat l1)) with (i + S (length (flat l1))) by lia. exact H2.
+    + constructor; auto. apply IH; auto. cbn [item_bytes] in H2. rewrite app_length in H2.
+      replace (i + length g + length (flat l1)) with (i + (length g + length (flat l1))) by lia. exact H2.
+Qed.
+
+(* plain bytes for level n: not an opener, no trigger of the level *)
+Lemma quiet_from_plain n e cs : Forall (fun c => is_opener c = false /\ trigger n c = false) cs ->
+  forall i, quiet_from n e i (map IChar cs).
+Proof.
+  induction 1 as [|c cs [Ho Ht] Hcs IH]; intros i; cbn [map]; constructor; auto.
+  apply recog_untriggered. exact Ht.
+Qed.
+
+Lemma cquiet_app P l1 l2 : cquiet P l1 -> cquiet P l2 -> cquiet P (l1 ++ l2).
+Proof. intros H1 H2. apply Forall_app. split; assumption. Qed.
+
+Lemma cquiet_plain P cs : Forall (fun c => is_opener c = false /\ P c = false) cs -> cquiet P (map IChar cs).
+Proof. induction 1; cbn [map]; constructor; auto. Qed.
+
+Definition cmp_level (op : cmpop) : nat := match op with CEq | CNe => 4 | _ => 3 end.
+Definition cmp_opch (op : cmpop) : N :=
+  match op with CLt => 60 | CLe => 92 | CGt => 62 | CGe => 94 | CEq => 61 | CNe => 33 end%N.
+Definition cmp_head (op : cmpop) : N :=
+  match op with CLt | CLe => 60 | CGt | CGe => 62 | CEq => 61 | CNe => 33 end%N.
+
+Lemma cmp_recog op pre post :
+  recog (cmp_level op) ((pre ++ [32%N]) ++ print_cmp op ++ 32%N :: post) (length (pre ++ [32%N])) (cmp_head op)
+  = Ok (ASplit (cmp_opch op) (length (print_cmp op))).
+Proof.
+  destruct op; cbn [cmp_level print_cmp cmp_head cmp_opch app length].
+  - rewrite recog3 by auto. reflexivity.
+  - rewrite recog3 by auto. reflexivity.
+  - rewrite recog3 by auto. reflexivity.
+  - rewrite recog3 by auto. reflexivity.
+  - apply recog4_eq; reflexivity.
+  - apply recog4_ne; reflexivity.
+Qed.
+
+Lemma cmp_chars_plain op n : cmp_level op < n -> n <> 4 ->
+  Forall (fun c => is_opener c = false /\ trigger n c = false) (print_cmp op).
+Proof.
+  intros Hn H4.
+  assert (T : forall c, In c [60; 62; 61; 33]%N -> is_opener c = false /\ trigger n c = false).
+  { intros c Hc. cbn [In] in Hc.
+    destruct n as [|[|[|[|[|[|[|[|[|[|n]]]]]]]]]]; cbn [trigger]; try (destruct op; cbn in Hn; lia);
+      repeat (destruct Hc as [<-|Hc]; [split; reflexivity|]); contradiction. }
+  destruct op; cbn [print_cmp]; repeat constructor; apply T; cbn; tauto.
+Qed.
+
+Lemma cmp_chars_quiet4 op pre post : cmp_level op = 3 ->
+  quiet_from 4 (pre ++ print_cmp op ++ post) (length pre) (map IChar (print_cmp op)).
+Proof.
+  intros H3. destruct op; try discriminate; cbn [print_cmp map app].
+  - constructor; [reflexivity | apply recog_untriggered; reflexivity | constructor].
+  - constructor; [reflexivity | apply recog_untriggered; reflexivity |].
+    constructor; [reflexivity | | constructor].
+    replace (pre ++ 60%N :: 61%N :: post) with ((pre ++ [60%N]) ++ 61%N :: post) by (rewrite <- app_assoc; reflexivity).
+    replace (S (length pre)) with (length (pre ++ [60%N])) by (rewrite app_length; cbn; lia).
+    apply recog4_after_lt. auto.
+  - constructor; [reflexivity | apply recog_untriggered; reflexivity | constructor].
+  - constructor; [reflexivity | apply recog_untriggered; reflexivity |].
+    constructor; [reflexivity | | constructor].
+    replace (pre ++ 62%N :: 61%N :: post) with ((pre ++ [62%N]) ++ 61%N :: post) by (rewrite <- app_assoc; reflexivity).
+    replace (S (length pre)) with (length (pre ++ [62%N])) by (rewrite app_length; cbn; lia).
+    apply recog4_after_lt. auto.
+Qed.
+
+Lemma cmp_chars_c P op : P 60%N = false -> P 62%N = false -> P 61%N = false -> P 33%N = false ->
+  Forall (fun c => is_opener c = false /\ P c = false) (print_cmp op).
+Proof. intros. destruct op; cbn [print_cmp]; repeat constructor; assumption. Qed.
+
+Lemma cmp_head_spec op : exists t, print_cmp op = cmp_head op :: t /\ is_opener (cmp_head op) = false.
+Proof. destruct op; cbn; eexists; split; reflexivity. Qed.
+
+Section Main2.
+Context {F : Type} (O : oracle F) (obj : eobj F).
+Variable rec : N -> bool -> bytes -> R F.
+Variable st : N.
+Notation V := (evalue F).
+Notation EA := (eval_auto F O obj rec st).
+
+Lemma cmp_apply op (x y : V) : apply_op F O obj (cmp_level op) (cmp_opch op) x y = den_cmp F O obj op x y.
+Proof. destruct op; reflexivity. Qed.
+
+Lemma allq_snoc_space l : allq l -> allq (l ++ [IChar 32%N]).
+Proof. intros H. apply Forall_app. split; [exact H | constructor; [reflexivity | constructor]]. Qed.
+
+Lemma allq_cons_space l : allq l -> allq (IChar 32%N :: l).
+Proof. intros H. constructor; [reflexivity | exact H]. Qed.
+
+Lemma tight_concat a mid b : tight_text a -> tight_text b -> tight_text (a ++ mid ++ b).
+Proof.
+  intros [_ (c & r & Ha & Hb1 & Hs1) _] [_ _ (m & d & Hb & Hd)].
+  assert (Hends : nonspace_ends (a ++ mid ++ b)).
+  { exists c, (r ++ mid ++ m), d. split; [right|split; assumption].
+    rewrite Ha, Hb. cbn [app]. rewrite <- !app_assoc. reflexivity. }
+  constructor.
+  - apply trim_tight. exact Hends.
+  - exists c, (r ++ mid ++ b). rewrite Ha. repeat split; auto.
+  - exists (a ++ mid ++ m), d. rewrite Hb. rewrite <- !app_assoc. repeat split; auto.
+Qed.
+
+(* a comparison of two atoms *)
+Lemma eval_auto_cmp op a b :
+  wf_atom a = true -> wf_atom b = true -> neg_ok O rec st -> covers st (print (BCmp op a b)) ->
+  EA 11 false (print (BCmp op a b)) = lift F (den F O obj (BCmp op a b)).
+Proof.
+  intros Ha Hb Hneg Hcov.
+  destruct (atom_shape a Ha) as (Hqa & Hfa & Hta & _).
+  destruct (atom_shape b Hb) as (Hqb & Hfb & Htb & _).
+  set (pa := print_atom a) in *. set (pb := print_atom b) in *.
+  set (pop := print_cmp op). set (L := cmp_level op).
+  set (l1 := atom_items a ++ [IChar 32%N]). set (l2 := IChar 32%N :: atom_items b).
+  set (e := print (BCmp op a b)).
+  assert (Hf1 : flat l1 = pa ++ [32%N]) by (unfold l1; rewrite flat_app, Hfa; reflexivity).
+  assert (Hf2 : flat l2 = 32%N :: pb) by (unfold l2; cbn [flat item_bytes app]; rewrite Hfb; reflexivity).
+  assert (He : e = flat l1 ++ pop ++ flat l2).
+  { unfold e. cbn [print]. rewrite Hf1, Hf2. fold pa pb pop. rewrite <- app_assoc. reflexivity. }
+  assert (Hel : e = flat (l1 ++ map IChar pop ++ l2)).
+  { rewrite He, !flat_app. f_equal. f_equal. clear. induction pop as [|c s IH]; cbn [map flat item_bytes app]; congruence. }
+  assert (Ht : tight_text e).
+  { unfold e. cbn [print]. fold pa pb pop.
+    replace (pa ++ 32%N :: pop ++ 32%N :: pb) with (pa ++ (32%N :: pop ++ [32%N]) ++ pb)
+      by (cbn [app]; rewrite <- !app_assoc; reflexivity).
+    apply tight_concat; assumption. }
+  destruct Ht as [Htrim (c & r & Hc & Hbang & _) _].
+  assert (HL : L = 3 \/ L = 4) by (unfold L; destruct op; cbn; auto).
+  (* the levels above L *)
+  replace 11 with (L + (11 - L)) by lia.
+  rewrite eval_auto_down with (l := l1 ++ map IChar pop ++ l2) (c := c) (r := r); auto.
+  2:{ intros n _. rewrite Hbang. apply andb_false_r. }
+  2:{ intros n Hn. unfold level_quiet.
+      destruct (Nat.eqb_spec n 11) as [E|E].
+      { apply cquiet_app; [apply allq_cquiet; [|apply allq_snoc_space; exact Hqa]; intros c0 H0; apply (inert_facts c0 H0)|].
+        apply cquiet_app; [apply cquiet_plain, cmp_chars_c; reflexivity|].
+        apply allq_cquiet; [|apply allq_cons_space; exact Hqb]. intros c0 H0. apply (inert_facts c0 H0). }
+      destruct (Nat.eqb_spec n 10) as [E0|E0].
+      { apply cquiet_app; [apply allq_cquiet; [|apply allq_snoc_space; exact Hqa]; intros c0 H0; apply (inert_facts c0 H0)|].
+        apply cquiet_app; [apply cquiet_plain, cmp_chars_c; reflexivity|].
+        apply allq_cquiet; [|apply allq_cons_space; exact Hqb]. intros c0 H0. apply (inert_facts c0 H0). }
+      destruct (Nat.eqb_spec n 2) as [E2|E2]; [lia|].
+      apply quiet_from_app; [apply allq_quiet_from, allq_snoc_space; exact Hqa|].
+      apply quiet_from_app; [|apply allq_quiet_from, allq_cons_space; exact Hqb].
+      cbn [Nat.add]. destruct (Nat.eq_dec n 4) as [E4|E4].
+      - subst n. rewrite He. apply cmp_chars_quiet4. unfold L in *. lia.
+      - apply quiet_from_plain. apply cmp_chars_plain; [exact Hn | exact E4]. }
+  (* level L itself *)
+  assert (Hstep : has_step st L = true).
+  { destruct (cmp_head_spec op) as (t & Hp & _).
+    assert (Hin : In (cmp_head op) e).
+    { rewrite He. apply in_or_app. right. apply in_or_app. left. fold pop in Hp. rewrite Hp. left. reflexivity. }
+    apply (has_step_sub st (cmp_head op)); [apply Hcov; exact Hin|].
+    unfold L. destruct op; reflexivity. }
+  destruct L as [|L'] eqn:EL; [lia|].
+  rewrite eval_auto_S, Hstep, level_scan_cases.
+  replace (S L' =? 11) with false by (symmetry; apply Nat.eqb_neq; lia).
+  replace (S L' =? 10) with false by (symmetry; apply Nat.eqb_neq; lia).
+  replace (S L' =? 2) with false by (symmetry; apply Nat.eqb_neq; lia).
+  destruct (cmp_head_spec op) as (t & Hp & Hno).
+  rewrite scan_level_binop with (l1 := l1) (opb := pop) (l2 := l2) (c := cmp_head op) (opch := cmp_opch op); auto.
+  - (* the two operands *)
+    subst pa pb.
+    rewrite (operand_trim_eq O obj _ _ _ _ _ (flat l1) (print_atom a)) by (rewrite Hf1; apply trim_app_space).
+    rewrite operand_nobang by exact Hta.
+    rewrite eval_auto_atom by assumption.
+    assert (E1 : rbind F (lift F (den_atom F O obj a)) (fun rgt => lift F (apply_op F O obj (S L') 0%N (VUndef F) rgt))
+                 = lift F (den_atom F O obj a)).
+    { rewrite rbind_lift. f_equal. destruct (den_atom F O obj a); cbn [bind]; try reflexivity. apply apply_op_zero. }
+    rewrite E1. apply lift_pair_bind. intros x.
+    rewrite (operand_trim_eq O obj _ _ _ _ _ (flat l2) (print_atom b)) by (rewrite Hf2; apply trim_space_l).
+    rewrite operand_nobang by exact Htb.
+    rewrite eval_auto_atom by assumption.
+    rewrite rbind_lift. f_equal.
+    destruct (den_atom F O obj b) as [y| | | |]; cbn [bind]; try reflexivity.
+    rewrite <- EL. apply cmp_apply.
+  - apply allq_quiet_from, allq_snoc_space. exact Hqa.
+  - fold pop in Hp. rewrite Hp. reflexivity.
+  - rewrite He, Hf1, Hf2. rewrite <- EL. apply cmp_recog.
+  - apply allq_quiet_from, allq_cons_space. exact Hqb.
+Qed.
+
+End Main2.
+
+Section Main3.
+Context {F : Type} (O : oracle F) (obj : eobj F).
+Variable rec : N -> bool -> bytes -> R F.
+Variable st : N.
+Notation V := (evalue F).
+Notation EA := (eval_auto F O obj rec st).
+
+Definition paren (x : bytes) : bytes := 40%N :: x ++ [41%N].
+
+Lemma paren_tight x : tight_text (paren x).
+Proof.
+  constructor.
+  - apply trim_tight. exists 40%N, x, 41%N. repeat split; auto.
+  - exists 40%N, (x ++ [41%N]). repeat split; auto.
+  - exists (40%N :: x), 41%N. repeat split; auto.
+Qed.
+
+(* !(X) *)
+Lemma eval_auto_not x (rx : res V) :
+  bal x -> rec st false x = lift F rx -> covers st (33%N :: paren x) ->
+  EA 11 false (33%N :: paren x) =
+    lift F (do v <- rx;
+            do b <- (match v with VBool _ b => Ok b | _ => to_bool F O obj v end);
+            Ok (VBool F (negb b))).
+Proof.
+  intros Hx Hrec Hcov.
+  set (e := 33%N :: paren x). set (l := [IChar 33%N; IGroup (paren x)]).
+  assert (He : e = flat l) by (unfold e, l; cbn [flat item_bytes app]; rewrite app_nil_r; reflexivity).
+  assert (Htrim : trim e = e).
+  { apply trim_tight. exists 33%N, (40%N :: x), 41%N. repeat split; auto. }
+  assert (Hg : good_group (paren x)) by (apply good_group_paren; exact Hx).
+  replace 11 with (4 + 7) by reflexivity.
+  rewrite eval_auto_down with (l := l) (c := 33%N) (r := paren x); auto.
+  2:{ intros n Hn. replace (n =? 4) with false by (symmetry; apply Nat.eqb_neq; lia). reflexivity. }
+  2:{ intros n Hn. unfold level_quiet.
+      destruct (Nat.eqb_spec n 11);
+        [unfold l; apply Forall_cons; [split; reflexivity | apply Forall_cons; [exact Hg | apply Forall_nil]]|].
+      destruct (Nat.eqb_spec n 10);
+        [unfold l; apply Forall_cons; [split; reflexivity | apply Forall_cons; [exact Hg | apply Forall_nil]]|].
+      destruct (Nat.eqb_spec n 2); [lia|].
+      unfold l. apply q_char; [reflexivity | | apply q_group; [exact Hg | apply q_nil]].
+      apply recog_untriggered.
+      destruct n as [|[|[|[|[|[|[|[|[|[|n]]]]]]]]]]; try lia; reflexivity. }
+  assert (Hstep : has_step st 4 = true).
+  { apply (has_step_sub st 33%N); [apply Hcov; left; reflexivity | reflexivity]. }
+  rewrite eval_auto_S, Hstep, level_scan_cases. cbn [Nat.eqb].
+  rewrite scan_level_transparent with (l := l); auto.
+  2:{ unfold l. apply q_char; [reflexivity | apply recog4_bang; reflexivity |].
+      apply q_group; [exact Hg | apply q_nil]. }
+  rewrite bind_pair_id. unfold operand. rewrite Htrim. cbn [Nat.eqb].
+  assert (Hsb : strip_bangs (S (length e)) e false false = Ok (true, true, paren x)).
+  { unfold e. cbn [strip_bangs length]. replace (33 =? 33)%N with true by reflexivity. cbn [negb].
+    rewrite (tt_trim _ (paren_tight x)). unfold paren. cbn [strip_bangs app].
+    replace (40 =? 33)%N with false by reflexivity. reflexivity. }
+  rewrite Hsb. cbn [bind]. unfold paren.
+  rewrite eval_auto_paren by exact Hx. rewrite Hrec.
+  unfold rbind, lift, ret. destruct rx as [v| | | |]; cbn [bind]; try reflexivity.
+  destruct (match v with VBool _ b => Ok b | _ => to_bool F O obj v end) as [b| | | |]; cbn [bind]; reflexivity.
+Qed.
+
+(* (X) && (Y)   and   (X) || (Y) *)
+Lemma eval_auto_logic (isand : bool) x y (rx ry : res V) :
+  let oc := if isand then 38%N else 124%N in
+  let e := paren x ++ [32%N; oc; oc; 32%N] ++ paren y in
+  bal x -> bal y -> rec st false x = lift F rx -> rec st false y = lift F ry -> covers st e ->
+  EA 11 false e =
+    lift F (do a <- rx; do b <- ry; if isand then op_and F O obj a b else op_or F O obj a b).
+Proof.
+  intros oc e Hx Hy Hrx Hry Hcov.
+  set (L := if isand then 8 else 9).
+  set (l1 := [IGroup (paren x); IChar 32%N]). set (l2 := [IChar 32%N; IGroup (paren y)]).
+  assert (Hgx : good_group (paren x)) by (apply good_group_paren; exact Hx).
+  assert (Hgy : good_group (paren y)) by (apply good_group_paren; exact Hy).
+  assert (Hf1 : flat l1 = paren x ++ [32%N]) by reflexivity.
+  assert (Hf2 : flat l2 = 32%N :: paren y) by (unfold l2; cbn [flat item_bytes app]; rewrite app_nil_r; reflexivity).
+  assert (He : e = flat l1 ++ [oc; oc] ++ flat l2).
+  { unfold e. rewrite Hf1, Hf2. rewrite <- app_assoc. reflexivity. }
+  assert (Hel : e = flat (l1 ++ map IChar [oc; oc] ++ l2)).
+  { rewrite He, !flat_app. reflexivity. }
+  assert (Ht : tight_text e).
+  { unfold e. apply tight_concat; apply paren_tight. }
+  destruct Ht as [Htrim (c & r & Hc & Hbang & _) _].
+  assert (Hq1 : allq l1)
+    by (unfold l1, allq; apply Forall_cons; [exact Hgx | apply Forall_cons; [reflexivity | apply Forall_nil]]).
+  assert (Hq2 : allq l2)
+    by (unfold l2, allq; apply Forall_cons; [reflexivity | apply Forall_cons; [exact Hgy | apply Forall_nil]]).
+  assert (Hoc : is_opener oc = false /\ (oc =? 44)%N = false /\ ((oc =? 63) || (oc =? 58))%N = false)
+    by (unfold oc; destruct isand; repeat split; reflexivity).
+  destruct Hoc as (Ho1 & Ho2 & Ho3).
+  replace 11 with (L + (11 - L)) by (unfold L; destruct isand; reflexivity).
+  rewrite eval_auto_down with (l := l1 ++ map IChar [oc; oc] ++ l2) (c := c) (r := r); auto.
+  2:{ intros n _. rewrite Hbang. apply andb_false_r. }
+  2:{ intros n Hn. unfold level_quiet.
+      destruct (Nat.eqb_spec n 11).
+      { apply cquiet_app; [apply allq_cquiet; auto; intros c0 H0; apply (inert_facts c0 H0)|].
+        apply cquiet_app; [repeat constructor; auto|].
+        apply allq_cquiet; auto. intros c0 H0. apply (inert_facts c0 H0). }
+      destruct (Nat.eqb_spec n 10).
+      { apply cquiet_app; [apply allq_cquiet; auto; intros c0 H0; apply (inert_facts c0 H0)|].
+        apply cquiet_app; [repeat constructor; auto|].
+        apply allq_cquiet; auto. intros c0 H0. apply (inert_facts c0 H0). }
+      destruct (Nat.eqb_spec n 2); [unfold L in Hn; destruct isand; lia|].
+      apply quiet_from_app; [apply allq_quiet_from; exact Hq1|].
+      apply quiet_from_app; [|apply allq_quiet_from; exact Hq2].
+      apply quiet_from_plain.
+      assert (Htr : trigger n oc = false).
+      { unfold L, oc in *. destruct isand;
+          destruct n as [|[|[|[|[|[|[|[|[|[|[|[|n]]]]]]]]]]]]; try lia; try reflexivity; congruence. }
+      repeat constructor; auto. }
+  assert (Hstep : has_step st L = true).
+  { apply (has_step_sub st oc).
+    - apply Hcov. unfold e. apply in_or_app. right. right. left. reflexivity.
+    - unfold L, oc. destruct isand; reflexivity. }
+  assert (HLS : exists L', L = S L' /\ (L =? 11) = false /\ (L =? 10) = false /\ (L =? 2) = false)
+    by (unfold L; destruct isand; eexists; repeat split; reflexivity).
+  destruct HLS as (L' & EL & N11 & N10 & N2).
+  rewrite EL, eval_auto_S. rewrite <- EL. rewrite Hstep, level_scan_cases, N11, N10, N2.
+  rewrite scan_level_binop with (l1 := l1) (opb := [oc; oc]) (l2 := l2) (c := oc) (opch := oc); auto.
+  - rewrite (operand_trim_eq O obj _ _ _ _ _ (flat l1) (paren x)) by (rewrite Hf1; apply trim_app_space).
+    rewrite operand_nobang by apply paren_tight.
+    rewrite EL. cbn [Nat.sub]. rewrite <- EL.
+    assert (Hnx : forall m, EA m false (paren x) = lift F rx)
+      by (intros m; unfold paren; rewrite eval_auto_paren by exact Hx; exact Hrx).
+    assert (Hny : forall m, EA m false (paren y) = lift F ry)
+      by (intros m; unfold paren; rewrite eval_auto_paren by exact Hy; exact Hry).
+    rewrite Hnx.
+    assert (E1 : rbind F (lift F rx) (fun rgt => lift F (apply_op F O obj L 0%N (VUndef F) rgt)) = lift F rx).
+    { rewrite rbind_lift. f_equal. destruct rx; cbn [bind]; try reflexivity. apply apply_op_zero. }
+    rewrite E1. apply lift_pair_bind. intros a.
+    rewrite (operand_trim_eq O obj _ _ _ _ _ (flat l2) (paren y)) by (rewrite Hf2; apply trim_space_l).
+    rewrite operand_nobang by apply paren_tight.
+    rewrite Hny. rewrite rbind_lift. f_equal.
+    destruct ry as [b| | | |]; cbn [bind]; try reflexivity.
+    unfold L, oc. destruct isand; reflexivity.
+  - apply allq_quiet_from. exact Hq1.
+  - rewrite He, Hf1, Hf2. unfold L, oc. destruct isand; cbn [app].
+    + replace ((paren x ++ [32%N]) ++ 38%N :: 38%N :: 32%N :: paren y)
+        with ((paren x ++ [32%N]) ++ 38%N :: 38%N :: (32%N :: paren y)) by reflexivity.
+      apply recog8.
+    + apply recog9.
+  - apply allq_quiet_from. exact Hq2.
+Qed.
+
+End Main3.
+
+(* evalExpr on the text of a negative literal *)
+Lemma digit_plain_all n c : (c = 45%N \/ isdigit c = true) -> is_opener c = false /\ trigger n c = false.
+Proof.
+  intros Hc.
+  assert (E : forall k, In k [40; 91; 123; 34; 39; 42; 47; 37; 60; 62; 61; 33; 38; 94; 124; 63]%N -> (c =? k)%N = false).
+  { intros k Hk. apply N.eqb_neq. cbn [In] in Hk. unfold isdigit in Hc.
+    repeat (destruct Hk as [<-|Hk]; [destruct Hc as [->|Hc]; [discriminate | lia]|]). contradiction. }
+  split.
+  - unfold is_opener. rewrite (E 40%N), (E 91%N), (E 123%N), (E 34%N), (E 39%N) by (cbn; tauto). reflexivity.
+  - destruct n as [|[|[|[|[|[|[|[|[|[|n]]]]]]]]]]; cbn [trigger]; try reflexivity;
+      rewrite ?(E 42%N), ?(E 47%N), ?(E 37%N), ?(E 60%N), ?(E 62%N), ?(E 61%N), ?(E 33%N), ?(E 38%N), ?(E 94%N),
+        ?(E 124%N), ?(E 63%N) by (cbn; tauto); reflexivity.
+Qed.
+
+Section Neg.
+Context {F : Type} (O : oracle F) (obj : eobj F).
+
+Lemma eval_expr_neg d st n : 1 <= d -> (-100000000000000 < n)%Z -> (n < 0)%Z ->
+  eval_expr F O obj d st false (dec_of_Z n) =
+    ret F (VFloat F (f_mul F O (f_of_int F O (- n)%Z) (f_of_int F O (-1)%Z))).
+Proof.
+  intros Hd H1 H2. destruct d as [|d']; [lia|]. cbn [eval_expr].
+  destruct (neg_text_spec n H1 H2) as (ds & -> & Hall & Hlen & Hval).
+  set (e := 45%N :: ds). set (rec := eval_expr F O obj d').
+  assert (Hchars : Forall (fun c => c = 45%N \/ isdigit c = true) e).
+  { constructor; [left; reflexivity|]. eapply Forall_impl; [|exact Hall]. intros c Hc. right. exact Hc. }
+  assert (Hfl : flat (map IChar e) = e).
+  { clear. induction e as [|c r IH]; cbn [map flat item_bytes app]; congruence. }
+  assert (Hns : Forall (fun x => isspace x = false) e).
+  { eapply Forall_impl; [|exact Hchars]. intros c [->|Hc]; [reflexivity|]. unfold isdigit in Hc. unfold isspace. lia. }
+  assert (Ht : trim e = e) by (apply trim_tight, nonspace_ends_of; [discriminate | exact Hns]).
+  assert (Hplain : forall m, Forall (fun c => is_opener c = false /\ trigger m c = false) e).
+  { intros m. eapply Forall_impl; [|exact Hchars]. intros c Hc. apply digit_plain_all. exact Hc. }
+  assert (Hcq : forall P, P 45%N = false -> (forall c, isdigit c = true -> P c = false) -> cquiet P (map IChar e)).
+  { intros P P45 Pd. apply cquiet_plain. eapply Forall_impl; [|exact Hchars].
+    intros c [->|Hc]; (split; [apply (digit_plain_all 0); auto | auto]). }
+  (* levels 11 .. 3 *)
+  replace 11 with (2 + 9) by reflexivity.
+  rewrite (eval_auto_down O obj rec st (map IChar e) e 45%N ds 2); auto.
+  2:{ intros m _. apply andb_false_r. }
+  2:{ intros m Hm. unfold level_quiet.
+      destruct (Nat.eqb_spec m 11); [apply Hcq; [reflexivity | intros c Hc; unfold isdigit in Hc; lia]|].
+      destruct (Nat.eqb_spec m 10); [apply Hcq; [reflexivity | intros c Hc; unfold isdigit in Hc; lia]|].
+      destruct (Nat.eqb_spec m 2); [lia|].
+      apply quiet_from_plain. apply Hplain. }
+  (* level 1 and the atom *)
+  assert (H1' : eval_auto F O obj rec st 1 false e = eval_atom F O obj rec st false e).
+  { replace 1 with (0 + 1) by reflexivity.
+    rewrite (eval_auto_down_k O obj rec st (map IChar e) e 45%N ds 0); auto.
+    - intros m _ _. apply andb_false_r.
+    - intros m Hm1 Hm2. assert (m = 1) by lia. subst m. unfold level_quiet. cbn [Nat.eqb].
+      apply quiet_from_plain. apply Hplain. }
+  (* level 2 *)
+  rewrite eval_auto_S. destruct (has_step st 2).
+  - rewrite level_scan_cases. cbn [Nat.eqb].
+    rewrite scan_sums_neg with (ds := ds); auto; [|intros ->; cbn in Hlen; lia].
+    rewrite H1'. apply (eval_atom_negnum O obj rec st false (- n)%Z ds); assumption.
+  - rewrite H1'. apply (eval_atom_negnum O obj rec st false (- n)%Z ds); assumption.
+Qed.
+
+End Neg.
+
+(* ------------------------------------------------------------------ Part 6: the induction over trees *)
+
+Lemma cmp_plain op : Forall (fun c => plain_sq c = true) (print_cmp op).
+Proof. destruct op; repeat constructor. Qed.
+
+Lemma bal_print e : wf e = true -> bal (print e).
+Proof.
+  induction e as [a|op a b|x IH|x IHx y IHy|x IHx y IHy]; cbn [wf print]; intros H.
+  - apply (atom_shape a H).
+  - apply andb_true_iff in H. destruct H as [Ha Hb].
+    apply bal_app; [apply (atom_shape a Ha)|]. apply bal_plain; [reflexivity|].
+    apply bal_plain_run; [apply cmp_plain|]. apply bal_plain; [reflexivity|]. apply (atom_shape b Hb).
+  - apply bal_plain; [reflexivity|]. apply (bal_paren (print x) []); [apply IH; exact H | constructor].
+  - apply andb_true_iff in H. destruct H as [Ha Hb].
+    replace (40%N :: print x ++ [41; 32; 38; 38; 32; 40]%N ++ print y ++ [41%N])
+      with (40%N :: print x ++ 41%N :: ([32; 38; 38; 32]%N ++ (40%N :: print y ++ 41%N :: [])))
+      by (cbn [app]; reflexivity).
+    apply bal_paren; [apply IHx; exact Ha|]. apply bal_plain_run; [repeat constructor|].
+    apply bal_paren; [apply IHy; exact Hb | constructor].
+  - apply andb_true_iff in H. destruct H as [Ha Hb].
+    replace (40%N :: print x ++ [41; 32; 124; 124; 32; 40]%N ++ print y ++ [41%N])
+      with (40%N :: print x ++ 41%N :: ([32; 124; 124; 32]%N ++ (40%N :: print y ++ 41%N :: [])))
+      by (cbn [app]; reflexivity).
+    apply bal_paren; [apply IHx; exact Ha|]. apply bal_plain_run; [repeat constructor|].
+    apply bal_paren; [apply IHy; exact Hb | constructor].
+Qed.
+
+Lemma print_logic_eq oc x y :
+  40%N :: x ++ [41; 32; oc; oc; 32; 40]%N ++ y ++ [41%N] = paren x ++ [32%N; oc; oc; 32%N] ++ paren y.
+Proof. unfold paren. cbn [app]. rewrite <- !app_assoc. reflexivity. Qed.
+
+Lemma print_trim e : wf e = true -> trim (print e) = print e /\ print e <> [].
+Proof.
+  intros H.
+  assert (Hends : nonspace_ends (print e) /\ print e <> []).
+  { destruct e as [a|op a b|x|x y|x y]; cbn [wf print] in *.
+    - destruct (atom_shape a H) as (_ & _ & [_ (c & r & Hc & _ & Hs) (m & d & Hd & Hds)] & _).
+      split; [|rewrite Hc; discriminate].
+      destruct m as [|c' m'].
+      + exists d, [], d. rewrite Hd. cbn. repeat split; auto.
+      + rewrite Hd in Hc. cbn [app] in Hc. inversion Hc; subst c'. exists c, m', d. rewrite Hd.
+        split; [right; reflexivity | split; assumption].
+    - apply andb_true_iff in H. destruct H as [Ha Hb].
+      destruct (atom_shape a Ha) as (_ & _ & [_ (c & r & Hc & _ & Hs) _] & _).
+      destruct (atom_shape b Hb) as (_ & _ & [_ _ (m & d & Hd & Hds)] & _).
+      split; [|rewrite Hc; discriminate].
+      exists c, (r ++ 32%N :: print_cmp op ++ 32%N :: m), d. split; [right|split; assumption].
+      rewrite Hc, Hd. cbn [app]. rewrite <- !app_assoc. cbn [app]. rewrite <- !app_assoc. reflexivity.
+    - split; [|discriminate]. exists 33%N, (40%N :: print x), 41%N. repeat split; auto.
+    - split; [|discriminate]. exists 40%N, (print x ++ [41; 32; 38; 38; 32; 40]%N ++ print y), 41%N.
+      split; [right|split; reflexivity]. cbn [app]. rewrite <- !app_assoc. reflexivity.
+    - split; [|discriminate]. exists 40%N, (print x ++ [41; 32; 124; 124; 32; 40]%N ++ print y), 41%N.
+      split; [right|split; reflexivity]. cbn [app]. rewrite <- !app_assoc. reflexivity. }
+  destruct Hends as [He Hne]. split; [apply trim_tight; exact He | exact Hne].
+Qed.
+
+Section Final.
+Context {F : Type} (O : oracle F) (obj : eobj F).
+Notation V := (evalue F).
+
+(* evalExpr on the printed text of a well-formed tree is the denotation of the tree *)
+Theorem eval_expr_print : forall e, wf e = true -> forall d st,
+  length (print e) < d -> covers st (print e) ->
+  eval_expr F O obj d st false (print e) = lift F (den F O obj e).
+Proof.
+  induction e as [a|op a b|x IH|x IHx y IHy|x IHx y IHy]; intros Hwf d st Hd Hcov;
+    (destruct d as [|d']; [lia|]); cbn [eval_expr].
+  - assert (Hd1 : 1 <= d').
+    { cbn [wf print] in *. destruct (atom_shape a Hwf) as (_ & _ & [_ (c & r & Hc & _) _] & _).
+      rewrite Hc in Hd. cbn [length] in Hd. lia. }
+    apply eval_auto_atom; [exact Hwf|]. intros n H1 H2. apply eval_expr_neg; assumption.
+  - cbn [wf] in Hwf. apply andb_true_iff in Hwf. destruct Hwf as [Ha Hb].
+    assert (Hd1 : 1 <= d').
+    { cbn [print] in Hd. rewrite app_length in Hd. cbn [length] in Hd. lia. }
+    apply eval_auto_cmp; try assumption. intros n H1 H2. apply eval_expr_neg; assumption.
+  - cbn [wf] in Hwf. cbn [print den].
+    change (33%N :: 40%N :: print x ++ [41%N]) with (33%N :: paren (print x)).
+    apply eval_auto_not; [apply bal_print; exact Hwf | | exact Hcov].
+    apply IH; [exact Hwf | cbn [print length] in Hd; rewrite app_length in Hd; cbn [length] in Hd; lia |].
+    cbn [print] in Hcov. apply covers_cons in Hcov. destruct Hcov as [_ Hcov].
+    apply covers_cons in Hcov. destruct Hcov as [_ Hcov]. apply covers_app in Hcov. apply Hcov.
+  - cbn [wf] in Hwf. apply andb_true_iff in Hwf. destruct Hwf as [Ha Hb]. cbn [print den]. cbn [print] in Hcov, Hd.
+    rewrite print_logic_eq. rewrite print_logic_eq in Hcov.
+    rewrite print_logic_eq in Hd. unfold paren in Hd. rewrite !app_length in Hd. cbn [length] in Hd.
+    rewrite !app_length in Hd. cbn [length] in Hd.
+    apply (eval_auto_logic O obj (eval_expr F O obj d') st true (print x) (print y)); auto using bal_print.
+    + apply IHx; [exact Ha | lia |]. apply covers_app in Hcov. destruct Hcov as [Hc _].
+      unfold paren in Hc. apply covers_cons in Hc. destruct Hc as [_ Hc]. apply covers_app in Hc. apply Hc.
+    + apply IHy; [exact Hb | lia |]. apply covers_app in Hcov. destruct Hcov as [_ Hc].
+      apply covers_app in Hc. destruct Hc as [_ Hc].
+      unfold paren in Hc. apply covers_cons in Hc. destruct Hc as [_ Hc]. apply covers_app in Hc. apply Hc.
+  - cbn [wf] in Hwf. apply andb_true_iff in Hwf. destruct Hwf as [Ha Hb]. cbn [print den]. cbn [print] in Hcov, Hd.
+    rewrite print_logic_eq. rewrite print_logic_eq in Hcov.
+    rewrite print_logic_eq in Hd. unfold paren in Hd. rewrite !app_length in Hd. cbn [length] in Hd.
+    rewrite !app_length in Hd. cbn [length] in Hd.
+    apply (eval_auto_logic O obj (eval_expr F O obj d') st false (print x) (print y)); auto using bal_print.
+    + apply IHx; [exact Ha | lia |]. apply covers_app in Hcov. destruct Hcov as [Hc _].
+      unfold paren in Hc. apply covers_cons in Hc. destruct Hc as [_ Hc]. apply covers_app in Hc. apply Hc.
+    + apply IHy; [exact Hb | lia |]. apply covers_app in Hcov. destruct Hcov as [_ Hc].
+      apply covers_app in Hc. destruct Hc as [_ Hc].
+      unfold paren in Hc. apply covers_cons in Hc. destruct Hc as [_ Hc]. apply covers_app in Hc. apply Hc.
+Qed.
+
+(* expr.Eval on the printed text *)
+Theorem eval_print : forall e, wf e = true -> eval F O obj (print e) = den F O obj e.
+Proof.
+  intros e Hwf. destruct (print_trim e Hwf) as [Ht Hne].
+  unfold eval, eval_for_each. rewrite Ht.
+  destruct (print e) as [|c r] eqn:Ep; [congruence|]. rewrite <- Ep in *.
+  replace (length (print e) =? 0) with false by (symmetry; apply Nat.eqb_neq; rewrite Ep; cbn; lia).
+  rewrite eval_expr_print; auto; [|apply covers_steps_of].
+  unfold lift, ret. destruct (den F O obj e); reflexivity.
+Qed.
+
+(* whereT.matchExpr on the printed text *)
+Theorem match_print : forall e, wf e = true -> match_expr F O obj (print e) = den_match F O obj e.
+Proof. intros e Hwf. unfold match_expr, den_match. rewrite eval_print by exact Hwf. reflexivity. Qed.
+
+End Final.
